@@ -23,7 +23,7 @@ from __future__ import annotations
 import ast
 from typing import Dict, List, Optional, Set
 
-from ..astutil import Origins
+from ..astutil import Origins, with_folded
 from ..cfg import ReachingDefs
 from ..loader import ClassInfo, FuncInfo, Program, enclosing_stmt, parent, short, walk_own
 from ..report import BAD, INFO, OK, Instance
@@ -420,7 +420,7 @@ def rule_revrange(prog: Program, modules: Optional[Set[str]] = None) -> List[Ins
 
     for fi in prog.all_functions(modules):
         pairs = []
-        for n in walk_own(fi.node):
+        for n in with_folded(walk_own(fi.node)):
             if isinstance(n, ast.IfExp) and rng(n.body) and rng(n.orelse):
                 pairs.append((n.body, n.orelse, n))
             if isinstance(n, ast.If) and len(n.body) == 1 and len(n.orelse) == 1 and all(isinstance(s, ast.Assign) and len(s.targets) == 1 for s in (n.body[0], n.orelse[0])):
